@@ -190,7 +190,7 @@ func post_NotifyUnsubscribe(s *Service, sub message.Subscriber, ev *event.Subscr
 
 // The bookkeeping answer a subscribe / unsubscribe rests on is exactly Counters.IncrementOnce / Decrement (proved
 // against the abstract filter->count map under C02) on THIS connection's counters, asked once.
-//@ verify (*Conn).CanSubscribe pre=pre_Conn_subs post=post_Conn_CanSubscribe props=C02,C08,C18
+// @ verify (*Conn).CanSubscribe pre=pre_Conn_subs post=post_Conn_CanSubscribe props=C02,C08,C18
 func pre_Conn_subs(c *Conn) bool { return c != nil && c.subs != nil }
 func post_Conn_CanSubscribe(c *Conn, ssid message.Ssid, channel []byte, res0 bool) bool {
 	i := vs.TraceFind("IncrementOnce")
@@ -198,7 +198,7 @@ func post_Conn_CanSubscribe(c *Conn, ssid message.Ssid, channel []byte, res0 boo
 		specSameWords(vs.TraceArg[message.Ssid](i, 1), ssid) && vs.SameBytes(vs.TraceArg[[]byte](i, 2), channel)
 }
 
-//@ verify (*Conn).CanUnsubscribe pre=pre_Conn_subs post=post_Conn_CanUnsubscribe props=C02,C08,C18
+// @ verify (*Conn).CanUnsubscribe pre=pre_Conn_subs post=post_Conn_CanUnsubscribe props=C02,C08,C18
 func post_Conn_CanUnsubscribe(c *Conn, ssid message.Ssid, res0 bool) bool {
 	i := vs.TraceFind("Decrement")
 	return i >= 0 && vs.TraceLen() == 1 && vs.TraceArg[*message.Counters](i, 0) == c.subs && res0 == vs.TraceRet[bool](i, 0) &&
@@ -371,8 +371,8 @@ func post_onReceive_other(c *Conn, msg mqtt.Message, res0 error) bool {
 //@ assume (*github.com/emitter-io/emitter/internal/config.Config).MaxMessageBytes iface for=Process
 //@ assume (*github.com/kelindar/rate.Limiter).Limit iface for=Process
 
-//@ verify (*Conn).Process pre=pre_Conn_Process post=post_Conn_Process props=C09,C08
-//@ loop (*Conn).Process 0 unroll 2 bounded
+// @ verify (*Conn).Process pre=pre_Conn_Process post=post_Conn_Process props=C09,C08
+// @ loop (*Conn).Process 0 unroll 2 bounded
 func pre_Conn_Process(c *Conn) bool {
 	return c != nil && c.service != nil && c.service.Config != nil && c.socket != nil && c.limit != nil
 }
